@@ -301,7 +301,7 @@ func (s *Solver) getValues(vals []*Term) []*Term {
 		sb.WriteString("))\n")
 		lines := s.roundtrip(sb.String())
 		txt := strings.Join(lines, " ")
-		if strings.Contains(txt, "(error") {
+		if strings.Contains(txt, "(error \"") {
 			s.Errors = append(s.Errors, txt)
 			return nil
 		}
